@@ -31,7 +31,8 @@ PLAN = dict(
             "usize overflow of max_id is not modelled (ids are unbounded N)",
             "semantic preservation and order of effects are CHECKED on every case (run_core on the input vs run_fs on the Rust "
             "output, two argument tuples per program, source fuel 20000 / target fuel 400000 transitions; cases whose source run "
-            "is stuck or out of fuel give no verdict) but proved only for the fragment stated in Props/C03.v",
+            "is stuck or out of fuel give no verdict) but proved only for the fragment of C03_focus_preserves_partial (straight-line "
+            "integer code without mu/data/codata/calls)",
             "the reference machine Sem/CoreSem.v (branch c02) fixes the evaluation order of unfocused arguments",
             "well-typedness enters only through the shape predicate focus_wf (no Literal/Op consumer, no xtor-xtor or op-destructor cut)",
         ],
